@@ -3,6 +3,6 @@ CONSTANTS
   MaxRec = 1
   Algo = "dfs_bottomup"
 SPECIFICATION Spec
-INVARIANTS DfsOK BfsOK Bounded
+INVARIANTS DfsOK BfsOK Bounded ContigOK
 PROPERTY Terminates
 CHECK_DEADLOCK FALSE
